@@ -26,7 +26,9 @@ Step ==
      ELSE
         LET err == e.st # "ok"
             readable == e.adump.k = "message"
-            v == IF e.op = "Set" THEN SetOk(doc, e.path, e.sub, e.adump, e.exist, err) ELSE UnsetOk(doc, e.path, e.adump, err) IN
+            v == IF e.op = "Set" THEN SetOk(doc, e.path, e.sub, e.adump, e.exist, err)
+                 ELSE IF e.op = "SetMany" THEN SetManyOk(doc, e.path, e.many, e.adump, err)
+                 ELSE UnsetOk(doc, e.path, e.adump, err) IN
         IF ~readable THEN
            /\ (IF v.lbl = "Unspecified" THEN TRUE ELSE MM(R(e, "Readable", IF e.st \in {"ok", "err"} THEN e.adump.k ELSE e.st)))
            /\ live' = FALSE /\ UNCHANGED doc
